@@ -28,8 +28,11 @@ tech = {
 }
 hook_commits = [l.split()[0] for l in os.popen("git -C /repo log --oneline --grep='^verif hook'").read().splitlines()]
 checks = []
+FUZZ = g.get('FUZZ_TARGETS', {})
 for pid in sorted(PROPS):
     c = PROPS[pid]
+    if pid in FUZZ and 'libFuzzer' not in tech[pid]:
+        tech[pid] += '; thorough tier adds coverage-guided libFuzzer+ASan (' + ', '.join(t[0] for t in FUZZ[pid]) + ' target) with the same oracle'
     checks.append(dict(
         property_id=pid,
         quick_cmd="./check %s --tier quick" % pid,
